@@ -1,6 +1,11 @@
 // h_json.cpp - C15: Json::parse total + safe + error position inside the text; toString -> parse identity; stripComments == reference stripper
 // modes: exh-a, exh-b (all strings over a small alphabet, length <= scale), gen (grammar-generated valid documents: value oracle, comment stripping
-//        pipeline, every prefix), mut (mutations of valid documents), deep (nesting 1000), roundtrip (random Variant trees), strip-exh, strip-rand
+//        pipeline, every prefix), mut (mutations of valid documents), deep (nesting 1000), roundtrip (random Variant trees), strip-exh, strip-rand,
+//        reuse (sequences of 2-6 texts - valid, mutated, truncated, with and without line breaks - fed to ONE Json::Parser object)
+// In every mode a parse through the Json::Parser class (api 0 / 2) goes, for two thirds of the (case, parse number) pairs, through the case's long-lived
+// Parser object instead of a fresh one; that object is primed with 0-3 texts derived from the case index when it is created, so that "which texts share a
+// parser" is a function of the case alone (replay with --start idx --cases 1 rebuilds the same sequence). Every parse on an already used Parser is
+// cross-checked against the static Json::parse of the same text: same verdict, same tree, same error line / column / message.
 #include "h_doc_common.hpp"
 #include <nstd/Document/Json.hpp>
 #include <nstd/Error.hpp>
@@ -130,13 +135,110 @@ static const char* jsonClass(const char* t, size_t n, bool& trunc, bool& bslb) {
 
 struct PResult { bool ok; int line, col; bool havePos; };
 
+// ---------------------------------------------------------------- the long-lived Json::Parser of the current case
+struct SharedParser {
+  Json::Parser* p; long idx; int uses, parserApiNo; long lbSeen; int lastOk; bool force, disabled, priming, elide;
+};
+static SharedParser S = { 0, 0, 0, 0, 0, -1, false, false, false, false };
+static void dropShared() { if (S.p) { setctx("Json.Parser.destructor/reused-parser"); delete S.p; S.p = 0; } S.uses = 0; S.lbSeen = 0; S.lastOk = -1; S.parserApiNo = 0; }
+static void caseBegin(long idx) { beginCase(idx); dropShared(); S.idx = idx; }
+static void caseEnd(u64 fp, bool nontrivial) { dropShared(); endCase(fp, nontrivial); }
+static long countLinebreaks(const char* t, size_t n) { long k = 0; for (size_t i = 0; i < n; ++i) { if (t[i] == '\n') ++k; else if (t[i] == '\r') { ++k; if (i + 1 < n && t[i + 1] == '\n') ++i; } } return k; }
+
+// bytewise / structural identity of two parser results (independent of Variant::operator==; doubles by bit pattern)
+static bool sameTree(const Variant& a, const Variant& b, long& nodes) {
+  ++nodes;
+  if (a.getType() != b.getType()) return false;
+  switch (a.getType()) {
+  case Variant::nullType: return true;
+  case Variant::boolType: return a.toBool() == b.toBool();
+  case Variant::doubleType: { double x = a.toDouble(), y = b.toDouble(); return memcmp(&x, &y, sizeof x) == 0; }
+  case Variant::intType: return a.toInt() == b.toInt();
+  case Variant::uintType: return a.toUInt() == b.toUInt();
+  case Variant::int64Type: return a.toInt64() == b.toInt64();
+  case Variant::uint64Type: return a.toUInt64() == b.toUInt64();
+  case Variant::stringType: { String x = a.toString(), y = b.toString(); return x.length() == y.length() && memcmp((const char*)x, (const char*)y, x.length()) == 0; }
+  case Variant::listType: {
+    const List<Variant>& x = a.toList(); const List<Variant>& y = b.toList(); if (x.size() != y.size()) return false;
+    List<Variant>::Iterator i = x.begin(), j = y.begin();
+    for (List<Variant>::Iterator e = x.end(); i != e; ++i, ++j) if (!sameTree(*i, *j, nodes)) return false;
+    return true; }
+  case Variant::mapType: {
+    const HashMap<String, Variant>& x = a.toMap(); const HashMap<String, Variant>& y = b.toMap(); if (x.size() != y.size()) return false;
+    HashMap<String, Variant>::Iterator i = x.begin(), j = y.begin();
+    for (HashMap<String, Variant>::Iterator e = x.end(); i != e; ++i, ++j) {
+      const String& kx = i.key(); const String& ky = j.key();
+      if (kx.length() != ky.length() || memcmp((const char*)kx, (const char*)ky, kx.length()) != 0) return false;
+      if (!sameTree(*i, *j, nodes)) return false;
+    }
+    return true; }
+  default: {
+    const Array<Variant>& x = a.toArray(); const Array<Variant>& y = b.toArray(); if (x.size() != y.size()) return false;
+    for (usize i = 0; i < x.size(); ++i) if (!sameTree(x[i], y[i], nodes)) return false;
+    return true; }
+  }
+}
+
+static PResult parseGuarded(const char* text, size_t n, int api, Variant& out, const char* what);
+
+// texts a freshly created long-lived parser is primed with (short: the exhaustive modes pay for them on a third of their cases)
+static const char* primers[] = {
+  "{\n  \"a\": [\n    1,\n    2\n  ],\n  \"b\": null\n}\n", "[1,\n2,\n}", "\r\n\r\n[]", "\"line1\nline2\rline3\r\nline4\"", "\n\n\n\n\n\n\n\n",
+  "[\"a\",\r\"b\"\r,]", "{\"k\":\n\"unterminated", "", "1", "[true,false]", "{\"a\":1}x", "nul", "\t\n \r\n{\"x\":{\"y\":[\n]}}\n\n", "[\n[\n[\n",
+  "\"\\u12\n\"", "{\"a\"\n\n1}",
+};
+static const int NPRIMERS = (int)(sizeof primers / sizeof *primers);
+static void primeShared() {
+  u64 mh = 1520; for (const char* m = opts.mode; *m; ++m) mh = mix(mh, (u8)*m);   // per mode: the same index gets different primers in different modes
+  Rng pr(opts.seed, mh, (u64)S.idx);
+  int k = (int)pr.below(4);
+  bool f = S.force; S.force = true; S.priming = true;
+  for (int i = 0; i < k; ++i) { const char* t = primers[pr.below(NPRIMERS)]; Variant o; parseGuarded(t, strlen(t), pr.chance(1, 2) ? 0 : 2, o, "prime"); cnt("primer_parses"); }
+  S.force = f; S.priming = false;
+}
+
+// a parse on an already used Parser object must be indistinguishable from the static Json::parse of the same text
+static void crossCheckReused(const Exact& e, const char* cls, bool ok, const Variant& out, int line, int col, const String& msg) {
+  char keyNT[160], keyMem[160];
+  snprintf(keyNT, sizeof keyNT, "Json.parse/%s/nonterminating", cls); snprintf(keyMem, sizeof keyMem, "Json.parse/%s/memory-growth", cls);
+  Variant ref; bool ok2;
+  { String s; s.attach(e.p, e.n);
+    guardOn(5, keyNT, keyMem, e.n);
+    ok2 = (S.uses & 1) ? Json::parse((const char*)e.p, ref) : Json::parse(s, ref);
+    guardOff(); }
+  setctx("Json.Parser.parse/reused-parser/compare");
+  cnt("reused_parser_crosschecks");
+  if (ok2 != ok) fail("Json.Parser.parse/reused-parser/verdict-differs-from-static-parse", "a Json::Parser object already used for %d text(s) %s a text that the static Json::parse %s", S.uses, ok ? "accepts" : "rejects", ok2 ? "accepts" : "rejects");
+  if (ok) {
+    long nodes = 0;
+    if (!sameTree(out, ref, nodes)) fail("Json.Parser.parse/reused-parser/value-differs-from-static-parse", "a Json::Parser object already used for %d text(s) yields a different tree than the static Json::parse of the same text", S.uses);
+    cnt("reused_parser_nodes_compared", nodes);
+    return;
+  }
+  String es = Error::getErrorString(); int l2 = 0, c2 = 0;
+  if (sscanf((const char*)es, "Syntax error at line %d, column %d", &l2, &c2) != 2) { cnt("error_string_unparsed"); return; }
+  long lines, lineLen; posInside(e.p, e.n, line, col, lines, lineLen);
+  if (l2 != line) fail("Json.Parser.parse/reused-parser/error-line-differs-from-static-parse", "a Json::Parser object already used for %d text(s) containing %ld line break(s) reports the failure at line %d column %d; the static Json::parse of the same text reports line %d column %d; the text has %ld line(s)", S.uses, S.lbSeen, line, col, l2, c2, lines);
+  if (c2 != col) fail("Json.Parser.parse/reused-parser/error-column-differs-from-static-parse", "a Json::Parser object already used for %d text(s) reports the failure at line %d column %d; the static Json::parse of the same text reports line %d column %d", S.uses, line, col, l2, c2);
+  Text exp; exp.addf("Syntax error at line %d, column %d: ", line, col); size_t pre = exp.n;
+  if (es.length() < pre || es.length() - pre != msg.length() || memcmp((const char*)es + pre, (const char*)msg, msg.length()) != 0)
+    fail("Json.Parser.parse/reused-parser/error-message-differs-from-static-parse", "a Json::Parser object already used for %d text(s): getErrorString() is \"%.80s\" but the static Json::parse of the same text reports \"%.120s\"", S.uses, (const char*)msg, (const char*)es);
+  cnt("reused_parser_positions_compared");
+}
+
 // parses text (n bytes) from an exactly-sized heap block through one of the four public entry points; checks termination, heap growth and the failure position
 static PResult parseGuarded(const char* text, size_t n, int api, Variant& out, const char* what) {
   PResult r; r.ok = false; r.line = r.col = 0; r.havePos = false;
   bool fTrunc, fBslb; const char* cls = jsonClass(text, n, fTrunc, fBslb);
   if (xTrunc && fTrunc) { cnt("skipped_excluded_inputs"); r.ok = false; r.havePos = false; r.line = -1; return r; }
-  if (!strcmp(what, "prefix")) hist.addf("prefix api=%d: the first %lu bytes of the document above\n", api, (unsigned long)n);
-  else { hist.addf("%s api=%d len=%lu \"", what, api, (unsigned long)n); hist.addEsc(text, n); hist.add("\"\n"); }
+  // which Parser object: a fresh one, or the long-lived one of this case (function of the case index and the number of Parser-API parses so far)
+  bool shared = false;
+  if ((api == 0 || api == 2) && !S.disabled) { shared = S.force || (S.idx + S.parserApiNo) % 3 != 0; if (!S.priming) ++S.parserApiNo; }
+  if (shared && !S.p) { setctx("Json.Parser.constructor"); S.p = new Json::Parser; if (!S.force) primeShared(); }
+  char tag[64]; tag[0] = 0; if (shared) snprintf(tag, sizeof tag, " (long-lived Parser, its text #%d)", S.uses + 1);
+  if (!strcmp(what, "prefix")) hist.addf("prefix api=%d%s: the first %lu bytes of the document above\n", api, tag, (unsigned long)n);
+  else if (S.elide && n > 400) { hist.addf("%s api=%d%s len=%lu \"", what, api, tag, (unsigned long)n); hist.addEsc(text, 200); hist.add("\"... (elided: regenerate from the header line)\n"); }
+  else { hist.addf("%s api=%d%s len=%lu \"", what, api, tag, (unsigned long)n); hist.addEsc(text, n); hist.add("\"\n"); }
   Exact e(text, n);
   char keyNT[160], keyMem[160], prefix[120];
   snprintf(prefix, sizeof prefix, "Json.parse/%s", cls);
@@ -144,7 +246,8 @@ static PResult parseGuarded(const char* text, size_t n, int api, Variant& out, c
   setctxf("Json.parse/%s", cls);
   String errStr;
   {
-    Json::Parser parser;
+    Json::Parser fresh;
+    Json::Parser& parser = shared ? *S.p : fresh;
     guardOn(5, keyNT, keyMem, n);
     switch (api) {
     case 0: r.ok = parser.parse((const char*)e.p, out); break;
@@ -159,6 +262,18 @@ static PResult parseGuarded(const char* text, size_t n, int api, Variant& out, c
     }
   }
   if (memcmp(e.p, text, n) != 0 || e.p[n] != 0) { char k[160]; snprintf(k, sizeof k, "%s/input-modified", prefix); fail(k, "the parser wrote into the caller's text"); }
+  if (shared) {
+    if (S.uses >= 1) {
+      cnt("parses_on_reused_parser"); cnt(api == 0 ? "reused_parser_parse_cstr" : "reused_parser_parse_string");
+      cnt(r.ok ? "reused_parser_accepted" : "reused_parser_rejected");
+      if (S.lbSeen > 0) { cnt("reused_after_linebreak_text"); if (!r.ok) cnt("reused_rejected_after_linebreak_text"); }
+      setItem("reuse_transitions", S.lastOk ? (r.ok ? "accepted>accepted" : "accepted>rejected") : (r.ok ? "rejected>accepted" : "rejected>rejected"));
+      crossCheckReused(e, cls, r.ok, out, r.line, r.col, errStr);
+      if (memcmp(e.p, text, n) != 0 || e.p[n] != 0) { char k[160]; snprintf(k, sizeof k, "%s/input-modified", prefix); fail(k, "the parser wrote into the caller's text"); }
+    }
+    ++S.uses; S.lbSeen += countLinebreaks(text, n); S.lastOk = r.ok ? 1 : 0;
+    statMax("max_texts_on_one_parser", S.uses);
+  }
   cnt("parses"); cnt("parse_bytes", (long)n);
   if (r.ok) cnt("parse_accepted");
   else {
@@ -207,7 +322,7 @@ static void exhaustive(const char* alphabet, int A, int modeConst) {
   for (long idx = first; idx < total; ++idx) {
     if (!mine(idx)) continue;
     int len = exhDecode(idx, A, dg, 12); if (len < 0) break;
-    beginCase(idx);
+    caseBegin(idx);
     for (int i = 0; i < len; ++i) buf[i] = alphabet[dg[i]]; buf[len] = 0;
     Variant out;
     int api = (int)(idx % 4);
@@ -216,7 +331,7 @@ static void exhaustive(const char* alphabet, int A, int modeConst) {
     cnt("exh_parses");
     if (idx % 100003 == 7) sample("%s", hist.c());
     u64 fp = mix(mix(0x5eed, (u64)modeConst), (u64)idx);
-    endCase(fp, len >= 2);
+    caseEnd(fp, len >= 2);
   }
   if (opts.cases < 0) cnt("exhaustive_space", opts.shard == 0 ? total : 0);
   statMax("exhaustive_max_length", L);
@@ -371,7 +486,7 @@ static bool stripCheck(const char* t, size_t n, Bytes& ref) {
 static void genMode() {
   for (long idx = opts.start; idx < opts.start + opts.cases; ++idx) {
     if (!mine(idx)) continue;
-    beginCase(idx);
+    caseBegin(idx);
     Rng r(opts.seed, 1501, (u64)idx);
     if (idx < NCORPUS) {
       const char* t = corpus[idx]; size_t n = strlen(t);
@@ -380,7 +495,7 @@ static void genMode() {
       hist.addf("document \""); hist.addEsc(t, n); hist.add("\"\n");
       everyPrefix(t, n, (int)idx);
       Bytes ref; stripCheck(t, n, ref);
-      endCase(mix(mix(0x5eed, 1501), (u64)idx), true);
+      caseEnd(mix(mix(0x5eed, 1501), (u64)idx), true);
       continue;
     }
     bool comments = r.chance(2, 3);
@@ -409,38 +524,41 @@ static void genMode() {
     if (idx % 211 == 0) sample("%.900s", hist.c());
     u64 fp = hashModel(m); long nn = countNodes(m);
     delete m;
-    endCase(fp, nn >= 3);
+    caseEnd(fp, nn >= 3);
   }
 }
 
 // ================================================================================================ mutations
-static void mutMode() {
+static void mutate(Rng& r, Bytes& base, const Bytes& other, int nm, u64& fp) {
   static const char interesting[] = "{}[],:\"\\/utfnrb0123456789-+.eE \n\r\tDd8Cc";
+  for (int k = 0; k < nm; ++k) {
+    Bytes t; size_t n = base.size(); int kind = (int)r.below(7); fp = mix(fp, (u64)kind);
+    size_t at = n ? r.below(n) : 0;
+    char ch = r.chance(1, 8) ? (char)r.range(1, 255) : interesting[r.below(sizeof interesting - 1)];
+    switch (kind) {
+    case 0: t.add(base.p(), n); if (n) t.v[at] = ch; break;                                   // replace a byte
+    case 1: t.add(base.p(), at); t.add(ch); t.add(base.p() + at, n - at); break;             // insert a byte
+    case 2: { size_t len = n ? r.range(1, 4) : 0; if (at + len > n) len = n - at; t.add(base.p(), at); t.add(base.p() + at + len, n - at - len); break; }  // delete a range
+    case 3: { size_t len = n ? r.range(1, 8) : 0; if (at + len > n) len = n - at; t.add(base.p(), at + len); t.add(base.p() + at, n - at); break; }        // duplicate a range
+    case 4: t.add(base.p(), at); if (other.size()) { size_t o = r.below(other.size()); t.add(other.p() + o, other.size() - o); } break;                   // splice
+    case 5: t.add(base.p(), at); t.add('\\'); if (r.chance(1, 2)) t.add(r.chance(1, 2) ? '\n' : '\r'); t.add(base.p() + at, n - at); break;             // backslash (+ line break)
+    default: { t.add(base.p(), n); for (size_t j = 0; j + 1 < t.size(); ++j) if (t.v[j] == '"' && r.chance(1, 3)) { t.v[j] = r.chance(1, 2) ? '\n' : '\\'; } break; }
+    }
+    base = t;
+    fp = mix(fp, (u64)at);
+  }
+}
+static void mutMode() {
   for (long idx = opts.start; idx < opts.start + opts.cases; ++idx) {
     if (!mine(idx)) continue;
-    beginCase(idx);
+    caseBegin(idx);
     Rng r(opts.seed, 1502, (u64)idx);
     Bytes base;
     if (r.chance(1, 5)) base.adds(corpus[r.below(NCORPUS)]);
     else { DocGen g(r, base, r.chance(1, 4), (int)r.range(0, 5)); delete g.document(); }
     Bytes other; if (r.chance(1, 3)) { DocGen g2(r, other, false, 3); delete g2.document(); }
     int nm = (int)r.range(1, 4); u64 fp = 1502;
-    for (int k = 0; k < nm; ++k) {
-      Bytes t; size_t n = base.size(); int kind = (int)r.below(7); fp = mix(fp, (u64)kind);
-      size_t at = n ? r.below(n) : 0;
-      char ch = r.chance(1, 8) ? (char)r.range(1, 255) : interesting[r.below(sizeof interesting - 1)];
-      switch (kind) {
-      case 0: t.add(base.p(), n); if (n) t.v[at] = ch; break;                                   // replace a byte
-      case 1: t.add(base.p(), at); t.add(ch); t.add(base.p() + at, n - at); break;             // insert a byte
-      case 2: { size_t len = n ? r.range(1, 4) : 0; if (at + len > n) len = n - at; t.add(base.p(), at); t.add(base.p() + at + len, n - at - len); break; }  // delete a range
-      case 3: { size_t len = n ? r.range(1, 8) : 0; if (at + len > n) len = n - at; t.add(base.p(), at + len); t.add(base.p() + at, n - at); break; }        // duplicate a range
-      case 4: t.add(base.p(), at); if (other.size()) { size_t o = r.below(other.size()); t.add(other.p() + o, other.size() - o); } break;                   // splice
-      case 5: t.add(base.p(), at); t.add('\\'); if (r.chance(1, 2)) t.add(r.chance(1, 2) ? '\n' : '\r'); t.add(base.p() + at, n - at); break;             // backslash (+ line break)
-      default: { t.add(base.p(), n); for (size_t j = 0; j + 1 < t.size(); ++j) if (t.v[j] == '"' && r.chance(1, 3)) { t.v[j] = r.chance(1, 2) ? '\n' : '\\'; } break; }
-      }
-      base = t;
-      fp = mix(fp, (u64)at);
-    }
+    mutate(r, base, other, nm, fp);
     // never hand over an embedded NUL: the text is what precedes the terminator
     size_t n = base.size(); for (size_t j = 0; j < n; ++j) if (base[j] == 0) { n = j; break; }
     int api = (int)r.below(4);
@@ -449,7 +567,55 @@ static void mutMode() {
     Bytes ref; stripCheck(base.p(), n, ref);
     cnt("mutation_parses");
     if (idx % 997 == 0) sample("%.500s", hist.c());
-    endCase(fp, n >= 2);
+    caseEnd(fp, n >= 2);
+  }
+}
+
+// ================================================================================================ one Parser object, several texts
+// case = a sequence of 2-6 texts handed to the same Json::Parser object (alternating parse(const char*) / parse(const String&)); every parse is judged like any
+// other (termination, heap, position inside the text; valid documents against their model) and, from the second text on, against the static Json::parse.
+static void reuseMode() {
+  static const char alpha[] = "{}[],:\"\\ut0-. \n\ra";
+  for (long idx = opts.start; idx < opts.start + opts.cases; ++idx) {
+    if (!mine(idx)) continue;
+    caseBegin(idx);
+    S.force = true;
+    Rng r(opts.seed, 1507, (u64)idx);
+    int steps = (int)r.range(2, 6); u64 fp = 1507; Bytes prev; long rejected = 0, withLb = 0;
+    hist.addf("# one Json::Parser object, %d texts\n", steps);
+    for (int k = 0; k < steps; ++k) {
+      Bytes t; MNode* model = 0; int kind = (int)r.below(8); fp = mix(fp, (u64)kind);
+      switch (kind) {
+      case 0: case 1: { DocGen g(r, t, false, (int)r.range(0, 4)); model = g.document(); break; }                                   // valid document
+      case 2: { DocGen g(r, t, r.chance(1, 4), (int)r.range(0, 4)); delete g.document(); Bytes other; mutate(r, t, other, (int)r.range(1, 3), fp); break; }  // mutant
+      case 3: t.adds(corpus[r.below(NCORPUS)]); break;
+      case 4: { Bytes d; DocGen g(r, d, false, (int)r.range(1, 4)); delete g.document(); t.add(d.p(), r.below(d.size() + 1)); break; }  // truncated document
+      case 5: { int n = (int)r.below(9); for (int i = 0; i < n; ++i) t.add(alpha[r.below(sizeof alpha - 1)]); break; }                // short token soup
+      case 6: { int n = (int)r.below(6); static const char* nl[] = { "\n", "\r\n", "\r" }; t.adds(r.chance(1, 2) ? "[1," : "{\"a\":"); for (int i = 0; i < n; ++i) t.adds(nl[r.below(3)]); t.adds(r.chance(1, 2) ? "}" : "]]"); break; }  // line breaks, then a syntax error
+      default: if (k) t = prev; else t.adds(primers[r.below(NPRIMERS)]); break;                                                         // the same text again
+      }
+      size_t n = t.size(); for (size_t j = 0; j < n; ++j) if (t[j] == 0) { n = j; break; }
+      for (size_t j = 0; j < n; ++j) fp = mix(fp, (u8)t[j]);
+      if (countLinebreaks(t.p(), n)) ++withLb;
+      int api = r.chance(1, 2) ? 0 : 2;
+      Variant out; PResult pr = parseGuarded(t.p(), n, api, out, "parse");
+      if (pr.line != -1) {
+        if (!pr.ok) ++rejected;
+        if (model) {
+          if (!pr.ok) fail("Json.parse/valid-document/rejected", "a valid JSON document was rejected at line %d column %d (text #%d of the Parser object)", pr.line, pr.col, k + 1);
+          setctx("Json.parse/valid-document/compare");
+          Cmp cmp("Json.parse/valid-document"); Text path; cmp.go(out, model, path);
+          cnt("value_nodes_compared", cmp.nodes); cnt("value_string_bytes_compared", cmp.strBytes); cnt("valid_documents_compared");
+        }
+        if (pr.ok && r.chance(1, 4)) reparseAccepted(out, api);
+      }
+      delete model;
+      prev.clear(); prev.add(t.p(), n);
+    }
+    S.force = false;
+    cnt("reuse_sequences"); if (rejected && withLb) cnt("reuse_sequences_with_linebreaks_and_rejection");
+    if (idx % 499 == 0) sample("%.700s", hist.c());
+    caseEnd(fp, true);
   }
 }
 
@@ -465,7 +631,7 @@ static int depthOf(const Variant& v) {   // iterative walk along the first child
 static void deepMode() {
   for (long idx = opts.start; idx < opts.start + opts.cases; ++idx) {
     if (!mine(idx)) continue;
-    beginCase(idx);
+    caseBegin(idx);
     Rng r(opts.seed, 1503, (u64)idx);
     int pattern = (int)(idx % 8); int d = (idx / 8) % 2 == 0 ? 1000 : (int)r.range(1, 1000);
     Bytes t; bool valid = true; int closes = d;
@@ -481,21 +647,21 @@ static void deepMode() {
       for (int i = 0; i < closes; ++i) { char o = stack[stack.size() - 1 - (size_t)i]; t.add(o == '[' ? ']' : '}'); if (pattern == 5 && r.chance(1, 3)) t.add('\n'); } }
     if (pattern == 7) { t.add(','); valid = true; }   // trailing garbage after a complete value is outside the value
     hist.addf("# deep nesting pattern=%d depth=%d closes=%d bytes=%lu\n", pattern, d, closes, (unsigned long)t.size());
-    size_t keep = hist.n;
+    S.elide = true;
     int api = (int)r.below(4);
     Variant out; PResult pr = parseGuarded(t.p(), t.size(), api, out, "parse-deep");
-    hist.n = keep; hist.d[keep] = 0; hist.add("(input elided: regenerate from the header line)\n");
     if (valid && pattern != 7) {
       if (!pr.ok) fail("Json.parse/valid-document/rejected", "a valid document nested %d deep was rejected at line %d column %d", d, pr.line, pr.col);
       int got = depthOf(out); if (got != d) fail("Json.parse/valid-document/list/size", "document nested %d deep parsed to a tree nested %d deep", d, got);
       // serialise and parse again at full depth
       bool rep = true, lb = false; MNode* m = modelOf(out, rep, lb); Cmp cmp("Json.roundtrip");
-      size_t keep2 = hist.n; roundTrip(out, m, "Json.roundtrip", api, cmp); hist.n = keep2; hist.d[keep2] = 0; delete m;
+      roundTrip(out, m, "Json.roundtrip", api, cmp); delete m;
       cnt("deep_roundtrips"); cnt("rt_nodes_compared", cmp.nodes);
     } else if (!valid && pr.ok) cnt("deep_truncated_accepted");
+    S.elide = false;
     statMax("max_nesting_depth", d); cnt("deep_parses");
     setctx("Variant.destructor/deep");
-    endCase(mix(mix(1503, (u64)pattern), (u64)d), true);
+    caseEnd(mix(mix(1503, (u64)pattern), (u64)d), true);
   }
 }
 
@@ -548,7 +714,7 @@ static void describe(const MNode* m, Text& t, int depth = 0) {
 static void roundtripMode() {
   for (long idx = opts.start; idx < opts.start + opts.cases; ++idx) {
     if (!mine(idx)) continue;
-    beginCase(idx);
+    caseBegin(idx);
     Rng r(opts.seed, 1504, (u64)idx);
     u64 classes = 0;
     MNode* m = genTree(r, 0, (int)r.range(0, 6), classes);
@@ -564,7 +730,7 @@ static void roundtripMode() {
     if (idx % 307 == 0) sample("%.600s", hist.c());
     u64 fp = hashModel(m);
     delete m;
-    endCase(fp, nn >= 3 && (classes & 0x7f) != 0);
+    caseEnd(fp, nn >= 3 && (classes & 0x7f) != 0);
   }
 }
 
@@ -579,11 +745,11 @@ static void stripExh() {
   for (long idx = first; idx < total; ++idx) {
     if (!mine(idx)) continue;
     int len = exhDecode(idx, NSTRIPTOK, dg, 10); if (len < 0) break;
-    beginCase(idx);
+    caseBegin(idx);
     char buf[64]; size_t n = 0; for (int i = 0; i < len; ++i) { size_t k = strlen(stripTok[dg[i]]); memcpy(buf + n, stripTok[dg[i]], k); n += k; } buf[n] = 0;
     Bytes ref; stripCheck(buf, n, ref);
     if (idx % 100003 == 11) sample("%s", hist.c());
-    endCase(mix(mix(0x5eed, 1505), (u64)idx), len >= 2);
+    caseEnd(mix(mix(0x5eed, 1505), (u64)idx), len >= 2);
   }
   if (opts.cases < 0) cnt("exhaustive_space", opts.shard == 0 ? total : 0);
 }
@@ -592,7 +758,7 @@ static void stripRand() {
   const int NT = 20;
   for (long idx = opts.start; idx < opts.start + opts.cases; ++idx) {
     if (!mine(idx)) continue;
-    beginCase(idx);
+    caseBegin(idx);
     Rng r(opts.seed, 1506, (u64)idx);
     int w[NT], tot = 0; for (int i = 0; i < NT; ++i) { w[i] = r.chance(1, 3) ? 0 : (int)r.range(1, 8); tot += w[i]; } if (!tot) { w[10] = 1; tot = 1; }
     int len = (int)r.range(1, r.chance(1, 4) ? 200 : 40);
@@ -600,13 +766,13 @@ static void stripRand() {
     for (int i = 0; i < len; ++i) { int pick = (int)r.below((u64)tot), k = 0; while (pick >= w[k]) pick -= w[k++]; t.adds(tok[k]); fp = mix(fp, (u64)k); }
     Bytes ref; stripCheck(t.p(), t.size(), ref);
     if (idx % 997 == 0) sample("%.400s", hist.c());
-    endCase(fp, len >= 2);
+    caseEnd(fp, len >= 2);
   }
 }
 
 // ================================================================================================ probes of the listed findings
 static int probe(const char* key) {
-  beginCase(0);
+  beginCase(0); S.disabled = true;
   if (!strcmp(key, K_TRUNC)) { Variant out; parseGuarded("\"abc\\", 5, 0, out, "probe"); return 0; }
   if (!strcmp(key, K_BSLB)) { Variant out; parseGuarded("\"\\\nabc", 6, 0, out, "probe"); return 0; }
   if (!strcmp(key, K_RTLB)) { MNode m(K_STR); m.s.adds("a\nb\rc"); Variant v = buildVariant(&m); Cmp cmp("Json.roundtrip"); roundTrip(v, &m, "Json.roundtrip", 0, cmp); return 0; }
@@ -628,6 +794,7 @@ int main(int argc, char** argv) {
   else if (!strcmp(m, "roundtrip")) roundtripMode();
   else if (!strcmp(m, "strip-exh")) stripExh();
   else if (!strcmp(m, "strip-rand")) stripRand();
+  else if (!strcmp(m, "reuse")) reuseMode();
   else harnessBug("unknown mode %s", m);
   cnt("malloc_hook_calls", g_hookCalls);
   leakCheck("Json/leak");
